@@ -42,13 +42,37 @@ def stmts(n, kinds):
         return []
     if k == "IfStmt":
         cond = unwrap(n["inner"][0])
-        if cond.get("kind") != "BinaryOperator" or cond.get("opcode") != "==" or not is_member(cond["inner"][0], "yychar_"):
-            raise Outside("condition")
-        lit = unwrap(cond["inner"][1])
-        if lit.get("kind") != "CharacterLiteral":
-            raise Outside("condition literal")
-        return ["(SIf %d [%s] [%s])" % (lit["value"], "; ".join(stmts(n["inner"][1], kinds)),
-                                        "; ".join(stmts(n["inner"][2], kinds)) if len(n["inner"]) > 2 else "")]
+        then = "; ".join(stmts(n["inner"][1], kinds))
+        els = "; ".join(stmts(n["inner"][2], kinds)) if len(n["inner"]) > 2 else ""
+
+        def char_test(c, member=None, index=None):
+            """yychar_ == 'c'  |  yytext_[1] == 'c'  -> the literal's value or None"""
+            c = unwrap(c)
+            if c.get("kind") != "BinaryOperator" or c.get("opcode") != "==":
+                return None
+            lhs, lit = unwrap(c["inner"][0]), unwrap(c["inner"][1])
+            if lit.get("kind") != "CharacterLiteral":
+                return None
+            if member == "yychar_" and is_member(lhs, "yychar_"):
+                return lit["value"]
+            if member == "yytext_" and lhs.get("kind") == "ArraySubscriptExpr" and is_member(lhs["inner"][0], "yytext_"):
+                idx = unwrap(lhs["inner"][1])
+                if idx.get("kind") == "IntegerLiteral" and int(idx["value"]) == index:
+                    return lit["value"]
+            return None
+        v = char_test(cond, "yychar_")
+        if v is not None:
+            return ["(SIf %d [%s] [%s])" % (v, then, els)]
+        if cond.get("kind") == "BinaryOperator" and cond.get("opcode") == "&&":
+            a, b = char_test(cond["inner"][0], "yychar_"), char_test(cond["inner"][1], "yytext_", 1)
+            if a is not None and b is not None:
+                return ["(SIf2 %d %d [%s] [%s])" % (a, b, then, els)]
+        if cond.get("kind") == "CallExpr":
+            callee = [r for r in walk(cond["inner"][0]) if r.get("kind") == "DeclRefExpr"]
+            args = cond["inner"][1:]
+            if callee and callee[0]["referencedDecl"].get("name") == "isdigit" and len(args) == 1 and is_member(args[0], "yychar_"):
+                return ["(SIfDigit [%s] [%s])" % (then, els)]
+        raise Outside("condition")
     if k == "BinaryOperator" and n.get("opcode") == "=":
         lhs = unwrap(n["inner"][0])
         if lhs.get("kind") == "MemberExpr" and lhs.get("name") == "syntaxK_":
@@ -60,6 +84,8 @@ def stmts(n, kinds):
         me = n["inner"][0]
         if me.get("kind") == "MemberExpr" and me.get("name") == "yyinput" and len(n["inner"]) == 1:
             return ["SAdv"]
+        if me.get("kind") == "MemberExpr" and me.get("name", "").startswith("lex"):
+            return ["SOut"]          # a sub-lexer takes over: not a punctuator
         raise Outside("call")
     raise Outside(k)
 
@@ -97,6 +123,8 @@ def generate():
             ss = []
             for b in body:
                 ss += stmts(b, kinds)
+            if ss == ["SOut"]:
+                raise Outside("the whole case is a sub-lexer call")
             progs.append((lab, ss))
         except Outside as e:
             other.append(chr(lab))
